@@ -637,9 +637,9 @@ impl PartialEq for OrderableValue {
             (Self::String(a), Self::String(b)) => a == b,
             (Self::Bool(a), Self::Bool(b)) => a == b,
             (Self::Timestamp(a), Self::Timestamp(b)) => a == b,
-            // Cross-type numeric comparison
-            (Self::Int64(a), Self::Float64(b)) => (*a as f64) == b.0,
-            (Self::Float64(a), Self::Int64(b)) => a.0 == (*b as f64),
+            // Cross-type numeric comparison (exact: no precision loss above 2^53)
+            (Self::Int64(a), Self::Float64(b)) => cmp_i64_f64(*a, b.0).is_eq(),
+            (Self::Float64(a), Self::Int64(b)) => cmp_i64_f64(*b, a.0).is_eq(),
             _ => false,
         }
     }
@@ -662,8 +662,8 @@ impl Ord for OrderableValue {
             (Self::Bool(a), Self::Bool(b)) => a.cmp(b),
             (Self::Timestamp(a), Self::Timestamp(b)) => a.cmp(b),
             // Cross-type numeric comparison
-            (Self::Int64(a), Self::Float64(b)) => OrderedFloat64(*a as f64).cmp(b),
-            (Self::Float64(a), Self::Int64(b)) => a.cmp(&OrderedFloat64(*b as f64)),
+            (Self::Int64(a), Self::Float64(b)) => cmp_i64_f64(*a, b.0),
+            (Self::Float64(a), Self::Int64(b)) => cmp_i64_f64(*b, a.0).reverse(),
             // Different types: order by type ordinal for consistency
             // Order: Bool < Int64 < Float64 < String < Timestamp
             _ => self.type_ordinal().cmp(&other.type_ordinal()),
@@ -684,8 +684,46 @@ impl OrderableValue {
     }
 }
 
+/// Compares an `i64` with an `f64` exactly, without rounding the integer to `f64`.
+///
+/// NaN is greater than every integer, matching [`OrderedFloat64`].
+fn cmp_i64_f64(a: i64, b: f64) -> std::cmp::Ordering {
+    use std::cmp::Ordering;
+    if b.is_nan() || b >= 9_223_372_036_854_775_808.0 {
+        return Ordering::Less;
+    }
+    if b < -9_223_372_036_854_775_808.0 {
+        return Ordering::Greater;
+    }
+    // |b| < 2^63, so its integral part converts to i64 exactly
+    let whole = b.trunc();
+    match a.cmp(&(whole as i64)) {
+        Ordering::Equal => {
+            let frac = b - whole;
+            if frac > 0.0 {
+                Ordering::Less
+            } else if frac < 0.0 {
+                Ordering::Greater
+            } else {
+                Ordering::Equal
+            }
+        }
+        unequal => unequal,
+    }
+}
+
 impl Hash for OrderableValue {
     fn hash<H: Hasher>(&self, state: &mut H) {
+        // A float holding an exact i64 value equals that `Int64`, so it must hash like it
+        if let Self::Float64(f) = self
+            && f.0 >= -9_223_372_036_854_775_808.0
+            && f.0 < 9_223_372_036_854_775_808.0
+            && f.0.trunc() == f.0
+        {
+            std::mem::discriminant(&Self::Int64(0)).hash(state);
+            (f.0 as i64).hash(state);
+            return;
+        }
         std::mem::discriminant(self).hash(state);
         match self {
             Self::Int64(i) => i.hash(state),
